@@ -434,7 +434,7 @@ class Vector(object):
         float or ndarray
             Variable value.
         """
-        return self._abs_get_val(name, flat=flat)
+        return self._abs_get_val(self._lookup(name, self._iotype, True), flat=flat)
 
     def _abs_get_val(self, name, flat=True):
         """
